@@ -95,6 +95,15 @@ func TestVerifC01Grid(t *testing.T) {
 	}
 	if r.Thorough() {
 		probes = append(probes, moreProbes...)
+		// every whole second up to 16 s, and the milliseconds next to the documented skew and next to the bound itself
+		for sec := 1; sec <= 16; sec++ {
+			probes = append(probes, time.Duration(sec)*time.Second)
+		}
+		for _, ms := range []int{1, 2, 500, 998, 1001, 4001, 4998, 5002, 5999, 6001} {
+			probes = append(probes, time.Duration(ms)*time.Millisecond)
+		}
+		probes = append(probes, time.Microsecond, time.Nanosecond, 5*time.Second+time.Nanosecond, 5*time.Second-time.Nanosecond,
+			2*time.Minute, 10*time.Minute, time.Hour+time.Second, 12*time.Hour, 48*time.Hour, 30*24*time.Hour)
 	}
 	e := newEnv(t)
 	e2 := newEnv(t) // a node that cannot resolve any of the issuers (history "unknown DID")
